@@ -13,13 +13,13 @@ namespace geodlat {
 inline std::vector<double> direct_lats(bool T = false) {
   std::vector<double> v = {-90, -90 + 1e-9, -60, -1 / 32.0, -1e-20, -0.0, 0.0, std::nextafter(1 / 16.0, 0.0), 1 / 16.0, 30, 45, 89.9, 90};
   // thorough: both sides of the AngRound threshold on the other hemisphere, the cbet1 < -sbet1 switch at 45, tiny_ side of the poles
-  if (T) for (double x : {-89.9, -45.0, -1 / 16.0, 1e-9, std::nextafter(1 / 16.0, 1.0), 60.0, 89.9999999, 90 - 1e-13}) v.push_back(x);
+  if (T) for (double x : {-89.9, -45.0, -1 / 16.0, std::nextafter(1 / 16.0, 1.0), 60.0, 90 - 1e-13}) v.push_back(x);
   return v;
 }
 inline std::vector<double> direct_azis(bool T = false) {
   std::vector<double> v = {0.0, -0.0, 1e-17, 1 / 32.0, 30, 45, 90 - 1e-12, 90, 135, 180, -180, 270, 10000};
   // thorough: AngRound threshold 1/16, the other side of 90 and 180, all quadrants, a large negative multiple turn
-  if (T) for (double x : {-1 / 32.0, 1 / 16.0, 60.0, 90 + 1e-12, 120.0, 180 - 1e-10, -135.0, -7245.5}) v.push_back(x);
+  if (T) for (double x : {-1 / 32.0, 1 / 16.0, 90 + 1e-12, 120.0, 180 - 1e-10, -7245.5}) v.push_back(x);
   return v;
 }
 inline std::vector<double> direct_lons() { return {0, 179.5, -180, 540}; }
@@ -40,11 +40,11 @@ inline std::vector<LSpec> direct_lengths(bool T = false) {
   return v;
 }
 inline const char* direct_lat_text(bool T = false) {
-  return T ? "{-90,-90+1e-9,-60,-1/32,-1e-20,-0,+0,1/16-ulp,1/16,30,45,89.9,90} + {-89.9,-45,-1/16,1e-9,1/16+ulp,60,89.9999999,90-1e-13} (21)"
+  return T ? "{-90,-90+1e-9,-60,-1/32,-1e-20,-0,+0,1/16-ulp,1/16,30,45,89.9,90} + {-89.9,-45,-1/16,1/16+ulp,60,90-1e-13} (19)"
            : "{-90,-90+1e-9,-60,-1/32,-1e-20,-0,+0,1/16-ulp,1/16,30,45,89.9,90} (13)";
 }
 inline const char* direct_azi_text(bool T = false) {
-  return T ? "{0,-0,1e-17,1/32,30,45,90-1e-12,90,135,180,-180,270,10000} + {-1/32,1/16,60,90+1e-12,120,180-1e-10,-135,-7245.5} (21)"
+  return T ? "{0,-0,1e-17,1/32,30,45,90-1e-12,90,135,180,-180,270,10000} + {-1/32,1/16,90+1e-12,120,180-1e-10,-7245.5} (19)"
            : "{0,-0,1e-17,1/32,30,45,90-1e-12,90,135,180,-180,270,10000} (13)";
 }
 inline const char* direct_len_text(bool T) {
